@@ -750,7 +750,8 @@ class DeferQueue:
 
     def __init__(self):
         self._writes = []
-        self._pending_offsets = set()
+        # Dict[offset, length of the longest data queued at that offset]
+        self._pending_offsets = {}
         self._next_offset = 0
 
     def request_writes(self, offset, data):
@@ -771,18 +772,31 @@ class DeferQueue:
             # seen.  This can happen in the event of a retry
             # where if we retry at at offset N/2, we'll requeue
             # offsets 0-N/2 again.
-            return []
+            seen = self._next_offset - offset
+            if seen >= len(data):
+                return []
+            # The retried stream may be chunked differently, in which case
+            # only the beginning of the data has been seen: keep the rest.
+            data = data[seen:]
+            offset = self._next_offset
         writes = []
-        if offset in self._pending_offsets:
-            # We've already queued this offset so this request is
-            # a duplicate.  In this case we should ignore
-            # this request and prefer what's already queued.
+        if len(data) <= self._pending_offsets.get(offset, -1):
+            # We've already queued this offset (with at least as much
+            # data) so this request is a duplicate.  In this case we
+            # should ignore this request and prefer what's already queued.
             return []
         heapq.heappush(self._writes, (offset, data))
-        self._pending_offsets.add(offset)
-        while self._writes and self._writes[0][0] == self._next_offset:
+        self._pending_offsets[offset] = len(data)
+        while self._writes and self._writes[0][0] <= self._next_offset:
             next_write = heapq.heappop(self._writes)
-            writes.append({'offset': next_write[0], 'data': next_write[1]})
-            self._pending_offsets.remove(next_write[0])
-            self._next_offset += len(next_write[1])
+            if self._pending_offsets.get(next_write[0]) == len(next_write[1]):
+                del self._pending_offsets[next_write[0]]
+            # Writes queued by differently chunked attempts can overlap:
+            # only hand out the part that has not been written yet.
+            seen = self._next_offset - next_write[0]
+            if seen and seen >= len(next_write[1]):
+                continue
+            next_data = next_write[1][seen:]
+            writes.append({'offset': self._next_offset, 'data': next_data})
+            self._next_offset += len(next_data)
         return writes
